@@ -148,8 +148,15 @@ class Ctx:
                 raise Infra("TLC timed out after %ss on %s/%s" % (timeout, module, cfg))
         res = dict(out=outpath, rc=p.returncode, generated=0, distinct=0, results=[], wall=time.time() - t0)
         tail = []
+        errs, follow = [], 0
         with open(outpath, errors="replace") as f:
             for ln in f:
+                if follow > 0 and len(errs) < 40:
+                    errs.append(ln[:400])
+                    follow -= 1
+                elif ("Error:" in ln or "xception" in ln) and len(errs) < 40:
+                    errs.append(ln[:400])
+                    follow = 4
                 if ln.startswith('<<"VERIF-RESULT", '):
                     res["results"].append(json.loads(json.loads(ln[len('<<"VERIF-RESULT", '):].rstrip()[:-2])))
                     continue
@@ -162,8 +169,9 @@ class Ctx:
                 if len(tail) > 60:
                     tail.pop(0)
         res["tail"] = "".join(tail)
+        res["head"] = "".join(errs)[:1800]
         if p.returncode not in allow:
-            raise Infra("TLC exit %d on %s/%s:\n%s" % (p.returncode, module, cfg, res["tail"][-3500:]))
+            raise Infra("TLC exit %d on %s/%s:\n%s...\n%s" % (p.returncode, module, cfg, res["head"], res["tail"][-2000:]))
         shutil.rmtree(os.path.join(md, "states"), ignore_errors=True)
         return res
 
